@@ -86,6 +86,11 @@ func NewParser(srcPath, dstPath string) (*Parser, error) {
 	if fileSrc == nil && parseErr != nil {
 		return nil, logger.Errorf("%v: %v", srcPath, parseErr)
 	}
+	if fileSrc == nil {
+		// The loader never handed the file over: it uses cgo (import "C" files are compiled,
+		// not parsed as they are) or the output path names the setup file itself.
+		return nil, logger.Errorf("%v: the file cannot be loaded as a source of its package (a cgo file, or also named as the output?)", srcPath)
+	}
 	// An import without an explicit name is referred to by the name in the package clause
 	// of the imported package, which may differ from the last element of its path.
 	imports := util.NewImportNames(fileSrc.Imports)
